@@ -103,6 +103,21 @@ pub fn pre_lists(thorough: bool, seed: usize) -> Vec<(Vec<Vec<u8>>, Vec<u8>)> {
         l.push(b"zeta".to_vec());
         v.push((l, b"01Q zeta.x".to_vec()));
     }
+    // packed-selecting lists in which a pattern is a proper prefix of a later (and of an earlier) one:
+    // leftmost-first and leftmost-longest disagree there, and the prefilter must follow the searcher
+    v.push((vec![b"sam".to_vec(), b"samwise".to_vec(), b"frodo".to_vec(), b"pippin".to_vec(), b"merry".to_vec(), b"gandalf".to_vec()], b"samwise frodpinmeyglx.".to_vec()));
+    v.push((vec![b"frodo".to_vec(), b"samwise".to_vec(), b"sam".to_vec(), b"pip".to_vec(), b"pippin".to_vec(), b"merry".to_vec(), b"gandalf".to_vec(), b"me".to_vec()], b"samwise frodpinmeyglx.".to_vec()));
+    v.push((vec![b"ab".to_vec(), b"abcd".to_vec(), b"abc".to_vec(), b"xy".to_vec(), b"xyz".to_vec(), b"qr".to_vec(), b"qrs".to_vec()], b"abcdxyzqrs .".to_vec()));
+    // several hundred to a few thousand patterns sharing one start byte / one rare byte, followed by
+    // one that starts differently (a builder that stops analysing patterns at some count)
+    for n in [300usize, 520, 600, 1100, 2100, 4200] {
+        let mut l: Vec<Vec<u8>> = (0..n).map(|i| format!("/{:04}", i).into_bytes()).collect();
+        l.push(b"README".to_vec());
+        v.push((l, b"/0123 READMEx.".to_vec()));
+        let mut l: Vec<Vec<u8>> = (0..n).map(|i| format!("{:04}Q", i).into_bytes()).collect();
+        l.push(b"zeta".to_vec());
+        v.push((l, b"0123Q zeta.x".to_vec()));
+    }
     // crowded fingerprint groups of the vector searcher (see packedc::lists), as prefilter
     {
         let firsts = [0x61u8, 0x41, 0x51, 0x71, 0x31, 0x21];
